@@ -5,7 +5,7 @@ from checks.cryptstream import finish_proof
 
 CHEAP = {  # counts whose generated settings are cheap enough to hash in the quick tier
     "sha256crypt": [0, 1000, 1001, 1999, 999], "sha512crypt": [0, 1000, 1001, 1999, 999], "md5crypt": [0], "nt": [0], "descrypt": [0], "bigcrypt": [0],
-    "bsdicrypt": [0, 1, 2, 1000, 4095], "sha1crypt": [4, 5, 100, 1, 2000], "sunmd5": [0, 1, 32768], "bcrypt": [4, 5, 0], "bcrypt_a": [4, 5, 0], "bcrypt_y": [4, 5, 0],
+    "bsdicrypt": [0, 1, 2, 1000, 4095], "sha1crypt": [4, 5, 100, 1, 2000], "sunmd5": [0, 1, 32768], "bcrypt": [4, 5, 0, 8, 9, 10], "bcrypt_a": [4, 5, 0, 9], "bcrypt_y": [4, 5, 0, 9],
     "bcrypt_x": [0, 5], "scrypt": [], "yescrypt": [1, 2], "gost_yescrypt": [1, 2],
 }
 
